@@ -134,6 +134,7 @@ def child_cli(desc: dict) -> dict:
                fsd.get("unreadable", []), roles=desc.get("roles"),
                plan=[f for f in (desc.get("plan") or []) if f.get("op") != "line"], knobs=desc.get("knobs"))
     fs.set_mtimes(fsd.get("mtimes"))
+    fs.fifos = {SimFS.norm(pth) for pth in fsd.get("fifos", [])}
     initial = fs.snapshot()
     patches = Patches(fs)
     old = (sys.argv, sys.stdout, sys.stderr)
@@ -370,6 +371,7 @@ def gen_base(seed: int, attr_names=None) -> dict:
     rng = _random.Random(seed)
     # ---- input -----------------------------------------------------------------------
     in_kind = rng.choice(["pool"] * 13 + ["special"] * 5 + ["absent", "dir", "unreadable"])
+    in_fifo = in_kind == "pool" and rng.random() < 0.08  # named pipe / process substitution: readable, not a regular file
     in_path = rng.choice(["in.py", "in.py", "src/main.py", "\u00e9ntr\u00e9e.py", "in[1].py", "my in.py", "./in.py", "@in.py", "src/../in2.py", "~/in.py"])
     out_path = rng.choice(["out.txt", "out.txt", "build/out.py", "r\u00e9sultat.txt", "out[1].txt", "my out.txt", "./out.txt",
                            "build/../out2.txt", "~out.txt", "out.txt~", "~/out.txt", "0", "None"])
@@ -494,7 +496,8 @@ def gen_base(seed: int, attr_names=None) -> dict:
         "prop": "C16", "seed": seed, "parts": parts, "out_mode": "stdout" if out_mode == "stdout" else "file",
         "in_path": in_path, "out_path": None if out_mode == "stdout" else out_path, "in_state": in_state,
         "out_state": out_state, "prog": prog, "variant": variant, "special": special,
-        "fs": {"files": {p: files[p].hex() for p in sorted(files)}, "dirs": sorted(dirs), "ro": ro, "unreadable": unreadable},
+        "fs": {"files": {p: files[p].hex() for p in sorted(files)}, "dirs": sorted(dirs), "ro": ro, "unreadable": unreadable,
+               "fifos": [in_path] if in_fifo and out_state != "same_as_in" else []},
         "roles": roles, "knobs": knobs, "plan": [],
     })
 
@@ -898,9 +901,15 @@ def register(tpl):
                 if do_intr:
                     for k in range(1, res.get("main_lines", 0) + 1):
                         plans.append([{"at": 0, "op": "line", "kind": "SIGINT", "at_line": k}])
+                want_fault_sample = len(agg["samples"]) <= req.get("n_samples", 0) and req.get("n_samples", 0) > 0
                 for plan in plans:
                     d2 = dict(base, plan=plan)
                     r2, V2 = run_one(d2)
+                    if want_fault_sample and r2["fired"] and r2["status"] != res["status"]:
+                        want_fault_sample = False
+                        agg["samples"].append({"seed": seed, "argv": base["argv"], "class": cc, "fault_plan": plan, "fired": r2["fired"],
+                                               "status": r2["status"], "exc": r2["exc"], "status_without_fault": res["status"],
+                                               "io_history": [[op, role, r if isinstance(r, str) else "n=%s" % r] for _, op, role, _, r in r2["history"]][:30]})
                     run_digests.append(digest([plan, r2]))
                     agg["fault_runs"] += 1
                     account(d2, r2, V2, seed)
